@@ -143,6 +143,9 @@ func genRefPly(r *hx.Rng, big bool) (fileDesc, bool) {
 	if r.Chance(1, 3) {
 		props = append(props, vp{"int", "label"})
 	}
+	if r.Chance(1, 4) { // per-vertex texture coordinates: the Vector2 reader of the default configuration
+		props = append(props, vp{"float", "s"}, vp{"float", "t"})
+	}
 	nv := r.Range(1, 5)
 	if big {
 		nv = r.Range(4, 30)
@@ -932,8 +935,8 @@ func main() {
 	run.Extra["hangs"] = pl.hangs
 	run.Extra["decoder_process_deaths"] = pl.died
 	run.Extra["reader_kinds"] = readerKinds
-	run.Extra["starved_decodes_retried_alone"] = pl.starved
-	run.Extra["deadline"] = "CPU time of the decoding process: 1 s + 1 us per byte and reader kind; wall clock only as an inactivity limit (30 s + 10 us/byte, then one retry alone with twice that); child process, RLIMIT_AS 3 GiB"
+	run.Extra["decodes_retried_alone"] = pl.starved
+	run.Extra["deadline"] = "CPU time of the decoding process: 1 s + 1 us per byte and reader kind (user; x4 for user+system); wall clock only as an inactivity limit (30 s + 10 us/byte); a first miss of either is retried once alone in a fresh process, the second miss is the observation; child process, RLIMIT_AS 3 GiB"
 	pl.close()
 	run.Finish()
 }
